@@ -63,9 +63,9 @@ class Contract:
         self.predicate_ = None      # (ghost predicate name, [param names]): "this call returns normally"
 
     # fluent API ---------------------------------------------------------------------------------------------
-    def params(self, **kw):
-        self.param_types.update(kw)
-        return self
+    def params(self_, **kw):
+        self_.param_types.update(kw)
+        return self_
 
     def local(self, **kw):
         self.local_types.update(kw)
